@@ -4,7 +4,10 @@ Real `StreamDescriptor.create_stream` on real temp files, real `BlobFile.decrypt
 `decrypt_blob_bytes` and `StreamDownloader.read_blob` (real BlobManager) for decryption, real
 `from_stream_descriptor_blob` on published / synthetic / tampered descriptor blobs, real
 `sanitize_file_name`; judged against vlib/ref/stream.py (own SHA-384 commitments, own CBC
-chaining + manual PKCS7, own consistency classifier) and `hashlib`.
+chaining + manual PKCS7, own consistency classifier) and `hashlib`.  Download side: valid descriptors
+written by a FOREIGN publisher (reference-built blobs, any string as hash-committed suggested name) are
+handed to the real `ManagedStream` (real Config / SQLiteStorage / BlobManager); the names it suggests,
+the name of the file it writes, the stored file row and the saved bytes are judged.
 """
 import asyncio
 import copy
@@ -13,6 +16,7 @@ import json
 import os
 import random
 import shutil
+import sqlite3
 import tempfile
 
 from vlib import boot
@@ -24,8 +28,11 @@ RULE = ('publish cases: (size class incl. 1/15/16/17, MAX-2..MAX+1, 2(MAX-1), 2(
         'key kind x IV sequence kind x old_sort x hostile file name; tamper cases: one valid descriptor (published, '
         'synthetic 1..8 data blobs, or main-net fixture) x the whole tampering catalogue at first/middle/last/'
         'terminator, each with stale and with re-computed stream hash; name cases: strings from a hostile-name '
-        'generator.  distinct = hash(file bytes digest, key, ivs, name) / hash(tampered sd bytes) / the string; '
-        'non-trivial = every publish, every tampering that changed the bytes, every name')
+        'generator; download cases: valid reference-built stream of a foreign publisher x hostile name in the '
+        'descriptor (or blank descriptor name + hostile claim source name) x history (save_file / start(save_now) / '
+        'start, save_file / start, stop, reloaded with descriptor, save_file).  distinct = hash(file bytes digest, key, '
+        'ivs, name) / hash(tampered sd bytes) / the string / hash(sd bytes, history); '
+        'non-trivial = every publish, every tampering that changed the bytes, every name, every download')
 ASSUMPTIONS = [
     '"2 MiB" = 2*2**20 bytes; "control character" = U+0001..U+001F (DEL and C1 are logged, not judged)',
     'a tampering is judged only when the reference classifies it inconsistent (invalid JSON / missing field / '
@@ -34,6 +41,10 @@ ASSUMPTIONS = [
     'publishing with a repeating IV a file whose chunks repeat (two blobs with identical ciphertext) and publishing '
     'a file whose name is not valid UTF-8 are logged, not judged',
     'SHA-384 from hashlib and the single-block AES primitive of `cryptography` are trusted; JSON validity = Python json',
+    'download side: "the file name suggested for saving" = ManagedStream.suggested_file_name and .file_name when the user '
+    'gave no name, the directory entry save_file() writes and the file name stored for the next start; a save that does '
+    'not complete (name too long for the file system, ...) is logged, not judged; a descriptor with a blank name is only '
+    'driven together with a claim (as the daemon always does)',
 ]
 REQUIRED_HITS = [
     'R1.stream_roundtrip_checked', 'R1.via.BlobFile.decrypt', 'R1.via.StreamDownloader.read_blob',
@@ -45,6 +56,8 @@ REQUIRED_HITS = [
     'R4.refused.terminator', 'R4.refused.invalid-json', 'R4.refused.not-utf8', 'R4.refused.missing-field',
     'R4.structural_refused_with_matching_hash', 'R4.fixture_descriptor_loaded',
     'R5.publish_name_checked', 'R5.sanitize_checked', 'R5.input_with_forbidden_char',
+    'R5.download_name_checked', 'R5.download_input_with_forbidden_char', 'R5.download_claim_fallback_checked',
+    'R5.download_saved_file_checked', 'R1.via.ManagedStream.save_file',
 ]
 
 MAX = 2 * 2 ** 20          # "2 MiB" of the statement (not imported from lbry)
@@ -161,16 +174,17 @@ FIXED_NAMES = [
 ] + [chr(i) for i in range(0, 33)] + ['a' + chr(i) + 'b.e' + chr(i) + 'x' for i in range(0, 33)]
 
 
-def check_suggested(rec, source, dirty, got, kind):
+def check_suggested(rec, source, dirty, got, kind, extra=None):
     """R5 on one output string."""
     if not isinstance(got, str):
-        rec.violation(f'C02/R5/{source}/result-not-a-string', f'suggested name for {dirty!r} is {got!r}', {'input': dirty, 'got': repr(got)})
+        rec.violation(f'C02/R5/{source}/result-not-a-string', f'suggested name for {dirty!r} is {got!r}',
+                      dict(extra or {}, input=dirty, got=repr(got)))
         return
     bad = sorted({FORBIDDEN[c] for c in got if c in FORBIDDEN})
     for cls in bad:
         rec.violation(f'C02/R5/{source}/forbidden-char-in-suggested-name/{cls}',
                       f'suggested name for {dirty!r} is {got!r} (contains {cls})',
-                      {'input': dirty, 'input_utf8_hex': dirty.encode('utf8', 'surrogatepass').hex(), 'got': got, 'class': kind})
+                      dict(extra or {}, input=dirty, input_utf8_hex=dirty.encode('utf8', 'surrogatepass').hex(), got=got, **{'class': kind}))
     if not got:
         rec.log('R5.empty_suggested_name')
     if got in ('.', '..'):
@@ -199,6 +213,10 @@ def gen_cases(rng, tier, shard, nshards):
     quick = tier == 'quick'
     if shard == 0:
         yield {'fam': 'fixed'}
+    for part in range(FIXED_PARTS):
+        # download side on the fixed hostile names: first case of its shard, so its counters never depend on the budget
+        if shard == (2 + part) % nshards:
+            yield {'fam': 'download', 'seed': part, 'count': 0, 'fixed': True, 'part': part}
     # big publishes first (so that a budget cut never starves the boundary classes)
     reps = 4 if quick else 24
     idx = 0
@@ -230,6 +248,9 @@ def gen_cases(rng, tier, shard, nshards):
                    'style': ['sorted', 'old'][(j // 3 + j // 18 + shard) % 2]}
         if j % 6 == 0:
             yield {'fam': 'names', 'seed': rng.getrandbits(48), 'count': 400 if quick else 2000}
+        if j % 12 == 3:
+            # (sub-seed derived, not drawn: the other families keep their cases)
+            yield {'fam': 'download', 'seed': sub ^ 0x5d0c, 'count': 16 if quick else 60, 'fixed': False}
 
 
 def pub_case(r, size, j):
@@ -331,6 +352,8 @@ def execute(rec, case):
                 loop.run_until_complete(asyncio.wait_for(run_tamper_synthetic(rec, case, d), 600))
             elif fam == 'fixed':
                 loop.run_until_complete(asyncio.wait_for(run_fixed(rec, case, d), 600))
+            elif fam == 'download':
+                loop.run_until_complete(asyncio.wait_for(run_download(rec, case, d), 600))
             else:
                 raise ValueError(fam)
         finally:
@@ -969,3 +992,209 @@ async def run_fixed(rec, case, d):
         if ref.serialise(doc, style) != raw:
             raise RuntimeError('harness: fixture does not re-serialise to itself')
         await run_catalogue(rec, loop, d, doc, style, random.Random(n), 'fixture')
+
+
+# ==================================================================== R5 / R1: the download side
+# A descriptor need not come from create_stream: any publisher may commit any string as suggested_file_name (or leave it
+# blank and name the file in the claim).  The stream below is built by the reference alone and is valid by the reference's
+# classifier; the real ManagedStream picks the name and saves the file, in the histories the daemon goes through.
+DOWNLOAD_HISTORIES = ['save_file', 'start-save-now', 'start-then-save', 'reloaded']
+DOWNLOAD_PUBLISHED_IN = ['descriptor', 'descriptor+claim', 'claim-fallback', 'descriptor']
+BLANKS = ['', ' ', '\t', ' \t ', '  ']
+SAVE_NAME_LIMIT = 150      # UTF-8 bytes of the published name up to which the stream is also saved (file system limit: logged class)
+FIXED_PARTS = 4
+
+
+def foreign_stream(r):
+    """-> (plaintext, key, data blob entries, {blob hash: ciphertext}); reference CBC + PKCS7, small chunks."""
+    key = r.randbytes(16)
+    chunks = [r.randbytes(r.choice([1, 15, 16, 17, r.randint(1, 3000)])) for _ in range(r.choice([1, 1, 2, 3]))]
+    blobs, files = [], {}
+    for i, chunk in enumerate(chunks):
+        iv = r.randbytes(16)
+        ct = ref.cbc_encrypt_raw(key, iv, ref.pkcs7_pad(chunk))
+        h = hashlib.sha384(ct).hexdigest()
+        files[h] = ct
+        blobs.append({'length': len(ct), 'blob_num': i, 'iv': iv.hex(), 'blob_hash': h})
+    return b''.join(chunks), key, blobs, files
+
+
+async def run_download(rec, case, d):
+    from lbry.conf import Config
+    from lbry.extras.daemon.storage import SQLiteStorage
+    from lbry.blob.blob_manager import BlobManager
+    loop = asyncio.get_running_loop()
+    r = random.Random(case['seed'])
+    client, dl = os.path.join(d, 'client'), os.path.join(d, 'downloads')
+    os.mkdir(client)
+    os.mkdir(dl)
+    plain, key, data_blobs, files = foreign_stream(r)
+    for h, ct in files.items():
+        with open(os.path.join(client, h), 'wb') as f:
+            f.write(ct)
+    if case['fixed']:
+        todo = [('fixed-list', s) for s in FIXED_NAMES[case['part']::FIXED_PARTS]]
+    else:
+        todo = [hostile_name(r) for _ in range(case['count'])]
+    conf = Config(data_dir=client, wallet_dir=client, download_dir=dl, save_files=True, fixed_peers=[], tracker_servers=[],
+                  reflector_servers=[], download_timeout=4.0)
+    dbpath = os.path.join(client, 'lbrynet.sqlite')
+    storage = SQLiteStorage(conf, dbpath)
+    await storage.open()
+    manager = BlobManager(loop, client, storage, conf)
+    await manager.setup()
+    env = {'root': d, 'client': client, 'dl': dl, 'conf': conf, 'manager': manager, 'plain': plain, 'key_hex': key.hex(),
+           'data_blobs': data_blobs, 'fixed': case['fixed'], 'streams': {}}
+    try:
+        for n, (kind, name) in enumerate(todo):
+            if rec.out_of_time():
+                break
+            await download_one(rec, loop, env, r, n, kind, name)
+    finally:
+        manager.stop()
+        await storage.close()
+    # ---- what the next start of the daemon would use as file name (read by the harness, not through lbry)
+    try:
+        con = sqlite3.connect(dbpath)
+        try:
+            rows = con.execute('select stream_hash, file_name from file').fetchall()
+        finally:
+            con.close()
+    except sqlite3.Error as e:
+        rec.log('R5.download.stored_rows_unreadable.' + type(e).__name__)
+        rows = []
+    for stream_hash, hex_name in rows:
+        if hex_name is None or stream_hash not in env['streams']:
+            continue
+        kind, name, info = env['streams'][stream_hash]
+        try:
+            stored = bytes.fromhex(hex_name).decode('utf8')
+        except ValueError:
+            rec.log('R5.download.stored_file_name_not_hex_utf8')
+            continue
+        rec.hit('R5.download_stored_name_checked')
+        check_suggested(rec, 'stored-file-name', name, stored, kind, info)
+
+
+async def download_one(rec, loop, env, r, n, kind, name):
+    from lbry.stream.managed_stream import ManagedStream
+    from lbry.extras.daemon.storage import StoredContentClaim
+    from lbry.schema.claim import Claim
+    try:
+        raw_name = name.encode('utf8')
+    except UnicodeEncodeError:
+        rec.log('R5.download.name_not_utf8_not_driven')      # a descriptor / claim carries the UTF-8 bytes of a name
+        return
+    conf, manager, dl = env['conf'], env['manager'], env['dl']
+    if env['fixed']:
+        published_in, history = DOWNLOAD_PUBLISHED_IN[n % 4], DOWNLOAD_HISTORIES[(n // 4 + n) % 4]
+    else:
+        published_in, history = r.choice(DOWNLOAD_PUBLISHED_IN), r.choice(DOWNLOAD_HISTORIES)
+    if published_in == 'descriptor' and not name.strip():
+        published_in = 'descriptor+claim'      # blank name and no claim at all: nothing could be suggested (not driven)
+    if published_in == 'claim-fallback':
+        in_descriptor, in_claim = r.choice(BLANKS), name
+    elif published_in == 'descriptor+claim':
+        in_descriptor, in_claim = name, r.choice(['', 'claimed.bin', 'cl/aim\\ed\x02.bin'])
+    else:
+        in_descriptor, in_claim = name, None
+    save = len(raw_name) <= SAVE_NAME_LIMIT
+    # ---- a valid descriptor (reference commitments), stored as a genuine blob
+    hs, hn = in_descriptor.encode('utf8').hex(), (r.choice([raw_name, b'']) or b'stream').hex()
+    blobs = copy.deepcopy(env['data_blobs']) + [{'length': 0, 'blob_num': len(env['data_blobs']), 'iv': r.randbytes(16).hex()}]
+    doc = {'stream_type': 'lbryfile', 'stream_name': hn, 'key': env['key_hex'], 'suggested_file_name': hs,
+           'stream_hash': ref.stream_hash(hn, env['key_hex'], hs, blobs), 'blobs': blobs}
+    sd = ref.serialise(doc, r.choice(['sorted', 'old']))
+    v, why, _ = ref.classify(sd)
+    if (v, why) != ('consistent', 'ok'):
+        raise RuntimeError(f'harness: download descriptor is {v}/{why}')
+    sd_hash = hashlib.sha384(sd).hexdigest()
+    with open(os.path.join(env['client'], sd_hash), 'wb') as f:
+        f.write(sd)
+    info = {'name': name, 'name_utf8_hex': raw_name.hex(), 'published_in': published_in, 'history': history,
+            'descriptor_suggested_file_name': in_descriptor, 'claim_source_name': in_claim, 'data_blobs': len(blobs) - 1}
+    rec.case(['dl', sd_hash, history, in_claim], sample=info)
+    env['streams'][doc['stream_hash']] = (kind, name, info)
+    claim = None
+    if in_claim is not None:       # as download_from_uri does: the claim known from resolve, before anything is stored
+        c = Claim()
+        c.stream.source.name = in_claim
+        c.stream.source.sd_hash = sd_hash
+        claim = StoredContentClaim(outpoint='%064x:0' % (n + 1), claim_id='%040x' % (n + 1), name='claim-%d' % n, amount=1, height=1,
+                                   serialized=c.to_bytes().hex())
+
+    async def real(what, awaitable):
+        """one call into lbry; an exception is logged (the statement does not promise that saving succeeds)."""
+        try:
+            await awaitable
+            return True
+        except Exception as e:  # noqa
+            rec.log(f'R5.download.{what}_raised.{type(e).__name__}')
+            return False
+
+    def observe(stream):
+        for attr in ('suggested_file_name', 'file_name'):
+            try:
+                got = getattr(stream, attr)
+            except Exception as e:  # noqa
+                rec.log(f'R5.download.{attr}_raised.{type(e).__name__}')
+                continue
+            rec.hit('R5.download_name_checked')
+            if published_in == 'claim-fallback':
+                rec.hit('R5.download_claim_fallback_checked')
+            check_suggested(rec, 'ManagedStream.' + attr, name, got, kind, info)
+
+    rec.hit('R5.download.history.' + history)
+    rec.hit('R5.download.published_in.' + published_in)
+    if any(ch in FORBIDDEN for ch in name):
+        rec.hit('R5.download_input_with_forbidden_char')
+    before = set(os.listdir(dl))
+    stream = ManagedStream(loop, conf, manager, sd_hash, dl, claim=claim)
+    try:
+        if history == 'start-save-now':
+            if not await real('start', stream.start(save_now=True)):
+                return
+            observe(stream)
+        elif history != 'save_file' or not save:
+            if not await real('start', stream.start()):
+                return
+            if history == 'reloaded':       # what StreamManager does with a stored stream after a restart
+                await stream.stop_tasks()
+                descriptor = await manager.get_stream_descriptor(sd_hash)
+                stream = ManagedStream(loop, conf, manager, sd_hash, dl, claim=claim, descriptor=descriptor, rowid=stream.rowid)
+            observe(stream)
+        if not save:
+            rec.log('R5.download.long_name_not_saved')
+            return
+        if not await real('save_file', stream.save_file()):
+            observe(stream)
+            return
+        task, saved = stream.file_output_task, False
+        if task is None:
+            rec.log('R5.download.save_not_started')
+        else:
+            saved = await real('save_task', asyncio.wait_for(task, 60))
+        observe(stream)
+        # ---- what was written (the harness lists the directories itself)
+        new = sorted(set(os.listdir(dl)) - before)
+        if set(os.listdir(env['root'])) != {'client', 'downloads'} or not all(os.path.isfile(os.path.join(dl, fn)) for fn in new):
+            rec.violation('C02/R5/saved-file/written-outside-download-directory',
+                          f'saving the stream named {name!r} created entries other than a file in the download directory',
+                          dict(info, top_level=sorted(os.listdir(env['root'])), new_entries=new))
+        if len(new) != 1:
+            rec.log('R5.download.new_entries_in_download_directory.%d' % min(len(new), 2))
+        for fn in new:
+            rec.hit('R5.download_saved_file_checked')
+            check_suggested(rec, 'saved-file', name, fn, kind, info)
+        if saved and len(new) == 1 and os.path.isfile(os.path.join(dl, new[0])):
+            with open(os.path.join(dl, new[0]), 'rb') as f:
+                got = f.read()
+            rec.hit('R1.via.ManagedStream.save_file')
+            if got != env['plain']:
+                at = first_diff(got, env['plain'])
+                where = 'length-only' if at == min(len(got), len(env['plain'])) else 'content'
+                rec.violation(f'C02/R1/plaintext-differs/ManagedStream.save_file/{where}',
+                              f'the file saved for a {len(env["plain"])}-byte foreign stream has {len(got)} bytes, first difference at offset {at}',
+                              dict(info, first_difference=at, got=got[at:at + 32], expected=env['plain'][at:at + 32], got_len=len(got)))
+    finally:
+        await stream.stop_tasks()
